@@ -97,13 +97,22 @@ def ok_facts(g, view_info, stack=()):
     for b, kind, e in result_kind_of_ret(g):
         if kind == "err" or b not in g.reachable(0):
             continue
-        fs = set()
-        for f_ in facts_at(g, b, ef):
-            try:
-                hash(f_)
-                fs.add(f_)
-            except TypeError:
-                pass
+        combos = [[]]
+        if kind == "expr":
+            from .expr import ok_capable_combos
+            combos = ok_capable_combos(g, e)
+        fs = None
+        for blocks_ in combos:
+            cc = set()
+            for bb_ in [b] + list(blocks_):
+                for f_ in facts_at(g, bb_, ef):
+                    try:
+                        hash(f_)
+                        cc.add(f_)
+                    except TypeError:
+                        pass
+            fs = cc if fs is None else (fs & cc)
+        fs = fs or set()
         res = fs if res is None else (res & fs)
     out = sorted(res or [], key=repr)
     _ok_memo[key] = (g, out)
